@@ -1739,6 +1739,31 @@ func (c *Ctx) ruleArrayConversion(rule string, in func(*ssa.Function) bool) int 
 
 // ruleDivisor (T10): an integer division or remainder by a value read from
 // input needs a dominating test that the divisor is not zero.
+// excludesZero: on the taken edge the value selected by is cannot be zero.
+func excludesZero(g guardFact, is func(ssa.Value) bool) bool {
+	op := g.cmp.Op
+	if !g.truth {
+		op = negate(op)
+	}
+	x, y := g.cmp.X, g.cmp.Y
+	if is(y) && !is(x) {
+		x, y = y, x
+		op = flip(op)
+	}
+	if !is(x) {
+		return false
+	}
+	k, isK := ir.ConstInt(ir.StripConv(y))
+	if !isK {
+		return false
+	}
+	switch {
+	case op == token.NEQ && k == 0, op == token.GTR && k >= 0, op == token.GEQ && k >= 1, op == token.EQL && k != 0:
+		return true
+	}
+	return false
+}
+
 func (c *Ctx) ruleDivisor(rule string, in func(*ssa.Function) bool) int {
 	t := c.taint()
 	n := 0
@@ -1766,24 +1791,18 @@ func (c *Ctx) ruleDivisor(rule string, in func(*ssa.Function) bool) int {
 			dp := resolvedPath(bo.Y)
 			nonZero := false
 			for _, g := range c.guardFacts(fn, bo.Block()) {
-				op := g.cmp.Op
-				if !g.truth {
-					op = negate(op)
+				if excludesZero(g, func(v ssa.Value) bool { return resolvedPath(v) == dp }) {
+					nonZero = true
 				}
-				x, y := g.cmp.X, g.cmp.Y
-				if resolvedPath(y) == dp {
-					x, y = y, x
-					op = flip(op)
-				}
-				if resolvedPath(x) != dp {
-					continue
-				}
-				k, isK := ir.ConstInt(ir.StripConv(y))
-				if !isK {
-					continue
-				}
-				switch {
-				case op == token.NEQ && k == 0, op == token.GTR && k >= 0, op == token.GEQ && k >= 1, op == token.EQL && k != 0:
+			}
+			if p, isParam := d.(*ssa.Parameter); isParam && !nonZero && (fn.Object() == nil || !fn.Object().Exported()) {
+				// a helper or closure: the callers tested what they hand down
+				if okAll, _ := c.paramGuarded(fn, p, func(g guardFact, subj map[string]ssa.Value) bool {
+					return excludesZero(g, func(v ssa.Value) bool {
+						l := leafSet(v)
+						return len(l) == 1 && len(subj) == 1 && intersects(l, subj)
+					})
+				}); okAll {
 					nonZero = true
 				}
 			}
